@@ -211,13 +211,37 @@ def natOpt (p : Parsed) (k : String) (dflt : Nat) : Option Nat :=
   | some v => v.toNat?
   | none => some dflt
 
+/-- esl-shuffle -A [-b] [-N n] --seed s --informat afa <afa>: whole-alignment shuffles -/
+def runShuffleA (argv : List String) (files : String → Option (List Char)) : Option String := do
+  let p ← parseArgs ["-m", "-r", "-G", "--dna", "--rna", "-A", "-b"] ["--seed", "-N", "-L", "-k", "-w", "--informat"] argv {}
+  let seed ← seedOf p
+  let N ← natOpt p "-N" 1
+  let L ← natOpt p "-L" 0
+  if N = 0 || !p.has "-A" then none
+  -- whole-alignment mode on aligned FASTA, digital: the alphabet is guessed by the tool; the reference only takes
+  -- alignments that are unmistakably DNA or RNA (the symbols then do not depend on the guess beyond T/U)
+  if p.has "-G" || p.has "-m" || p.has "-r" || p.has "--dna" || p.has "--rna" || L != 0 || (p.val? "-k").isSome || (p.val? "-w").isSome then none
+  if !fmtIs p "--informat" "afa" then none
+  let [fn] := p.pos | none
+  let recs := parseFasta (← files fn)
+  let hasU := recs.any fun r => r.seq.any fun c => c == 'U' || c == 'u'
+  let hasT := recs.any fun r => r.seq.any fun c => c == 'T' || c == 't'
+  if hasU && hasT then none
+  let a : Abc := if hasU then .rna else .dna
+  if !alignedOk a recs || !namesDistinct recs then none
+  let rows := recs.map fun r => a.normalize r.seq
+  let samples := msaShuffleSamples (p.has "-b") rows N (EaselModel.Random.Rng.create .mersenne (UInt32.ofNat seed)) []
+  let out : List Char := samples.flatMap fun smp => renderFasta 60 ((recs.zip smp).map fun x => { x.1 with seq := x.2 })
+  some (String.ofList out)
+
 /-- esl-shuffle --seed s [-N n] [-L n] [-m | -k n | -w n | -r] --informat fasta <fasta>   |   -G --dna|--rna -L n [-N n] -/
 def runShuffle (argv : List String) (files : String → Option (List Char)) : Option String := do
-  let p ← parseArgs ["-m", "-r", "-G", "--dna", "--rna"] ["--seed", "-N", "-L", "-k", "-w", "--informat"] argv {}
+  let p ← parseArgs ["-m", "-r", "-G", "--dna", "--rna", "-A", "-b"] ["--seed", "-N", "-L", "-k", "-w", "--informat"] argv {}
   let seed ← seedOf p
   let N ← natOpt p "-N" 1
   let L ← natOpt p "-L" 0
   if N = 0 then none
+  if p.has "-b" || p.has "-A" then none
   if p.has "-G" then
     if !p.pos.isEmpty || L = 0 || p.has "-m" || p.has "-r" || (p.val? "-k").isSome || (p.val? "-w").isSome then none
     let syms ← match p.has "--dna", p.has "--rna" with
@@ -268,6 +292,20 @@ def runAlistat (argv : List String) (files : String → Option (List Char)) : Op
   if !alignedOk a recs || !namesDistinct recs then none
   some (if p.has "-1" then eslAlistatOneLine a recs else eslAlistatText a recs)
 
+/-- `^.+\|(.+)\|(.+)$` on a sequence name: (accession, id) = the last two `|`-separated fields of at least three -/
+def uniprotParts (name : List Char) : Option (List Char × List Char) :=
+  match (name.splitOn '|').reverse with
+  | id :: acc :: _ :: _ => if id.isEmpty || acc.isEmpty then none else some (acc, id)
+  | _ => none
+
+/-- record by primary key (name) or, failing that, by a secondary key that `easel index -u [-a]` derives from the name -/
+def findRec (recs : List Rec) (key : List Char) : Option Rec :=
+  match recs.find? (·.name = key) with
+  | some r => some r
+  | none => recs.find? fun r => match uniprotParts r.name with
+      | some (acc, id) => id = key || acc = key
+      | none => false
+
 /-- the record named `key`, echoed verbatim: its header line and the following lines up to the next header -/
 def echoRecord (ls : List Line) (key : List Char) : Option (List Line) :=
   let rec go : List Line → Option (List Line)
@@ -304,12 +342,20 @@ def runEasel (argv : List String) (files : String → Option (List Char)) : Opti
     else
       if f.any (fun c => c.toNat = 0) then none
       downsampleLinesText seed m f
-  | ["index", fn] =>
+  | "index" :: rest =>
+    let p ← parseArgs ["-a", "-u"] [] rest {}
+    let [fn] := p.pos | none
     let recs := parseFasta (← files fn)
     if recs.isEmpty || !namesDistinct recs || recs.any (fun r => r.seq.isEmpty || r.seq.any fun c => !c.isAlpha) then none
+    -- secondary keys: with -u the id (and with -a also the accession) parsed out of db|acc|id names
+    let sec := if p.has "-u" then recs.flatMap fun r => match uniprotParts r.name with
+        | some (acc, id) => (if p.has "-a" then [acc] else []) ++ [id]
+        | none => [] else []
+    if (sec ++ recs.map (·.name)).eraseDups.length != sec.length + recs.length then none
     let n := toString recs.length
-    some ("Creating SSI index " ++ fn ++ ".ssi for sequence file " ++ fn ++ "...    done.\nIndexed " ++ n ++ " sequences (" ++ n ++
-          " names).\nSSI index written to file " ++ fn ++ ".ssi\n")
+    let counts := if sec.isEmpty then n ++ " names" else n ++ " names and " ++ toString sec.length ++ " secondary keys"
+    some ("Creating SSI index " ++ fn ++ ".ssi for sequence file " ++ fn ++ "...    done.\nIndexed " ++ n ++ " sequences (" ++ counts ++
+          ").\nSSI index written to file " ++ fn ++ ".ssi\n")
   | "filter" :: rest =>
     let p ← parseArgs ["--dna", "--rna", "--amino"] ["--informat"] rest {}
     if !fmtIs p "--informat" "afa" then none
@@ -335,13 +381,13 @@ def runEasel (argv : List String) (files : String → Option (List Char)) : Opti
 /-! esl-sfetch (an SSI index must exist: the driver records `<file>.ssi` when it sees `esl-sfetch --index <file>`) -/
 
 def fetchOne (p : Parsed) (f : List Char) (recs : List Rec) (key : List Char) : Option (List Char) := do
-  let r ← recs.find? (·.name = key)
+  let r ← findRec recs key
   if p.has "-r" || (p.val? "-n").isSome then
     let s := if p.has "-r" then revcompText r.seq else r.seq
     let nm := match p.val? "-n" with | some n => n.toList | none => r.name
     some (renderFasta 60 [{ r with name := nm, seq := s }])
   else
-    some (unlines (← echoRecord (fileLines f) key))
+    some (unlines (← echoRecord (fileLines f) r.name))
 
 def fetchSub (p : Parsed) (recs : List Rec) (newname : Option (List Char)) (key : List Char) (a b : Nat) : Option (List Char) := do
   let r ← recs.find? (·.name = key)
@@ -368,11 +414,34 @@ def runSfetchFull (argv : List String) (files : String → Option (List Char)) :
     | some f, _ => some (note, [(f, content.toList)])
     | none, true => (p.pos[1]?).map fun k => (note, [(k, content.toList)])
     | none, false => some (content, [])
+  let fn ← p.pos.head?
+  let f ← files fn
+  if fmtIs p "--informat" "afa" then
+    -- an alignment file is read sequentially (no SSI index is used) and the de-gapped, parsed record is written
+    if p.has "--index" || p.has "-C" || (p.val? "-c").isSome then none
+    let recs0 := parseFasta f
+    if !sameLen recs0 || !namesDistinct recs0 then none
+    let recs := recs0.map fun r => { r with seq := r.seq.filter fun c => !isGapC c }
+    if recs.any (fun r => r.seq.isEmpty) || (p.has "-r" && !dnaTextOk recs) then none
+    let [_, arg2] := p.pos | none
+    let one (r : Rec) : List Char :=
+      let s := if p.has "-r" then revcompText r.seq else r.seq
+      let nm := match p.val? "-n" with | some n => n.toList | none => r.name
+      renderFasta 60 [{ r with name := nm, seq := s }]
+    if p.has "-f" then
+      if (p.val? "-n").isSome then none
+      let klines := (fileLines (← files arg2)).filter (fun l => !(l.all isBlank))
+      let keys ← klines.mapM fun l => (match ((String.ofList l).splitOn " ").filter (· ≠ "") with | [k] => some k.toList | _ => none)
+      if keys.eraseDups.length != keys.length || !keys.all (fun k => recs.any (·.name = k)) then none
+      let sel := recs.filter fun r => keys.contains r.name        -- file order, not key order
+      wrap ("\nRetrieved " ++ toString keys.length ++ " sequences.\n") (String.ofList (sel.flatMap one))
+    else
+      let r ← recs.find? (·.name = arg2.toList)
+      wrap ("\n\nRetrieved sequence " ++ arg2 ++ ".\n") (String.ofList (one r))
+  else
   match p.val? "--informat" with
   | some f => if f != "fasta" then none
   | none => pure ()
-  let fn ← p.pos.head?
-  let f ← files fn
   let recs := parseFasta f
   if recs.isEmpty || !namesDistinct recs || recs.any (fun r => r.seq.isEmpty) then none
   if p.has "--index" then
@@ -435,7 +504,7 @@ def runToolCore (tool : String) (argv : List String) (files : String → Option 
   | "esl-selectn" => runSelectn argv files
   | "esl-mask" => runMask argv files
   | "esl-reformat" => runReformat argv files
-  | "esl-shuffle" => runShuffle argv files
+  | "esl-shuffle" => if argv.contains "-A" then runShuffleA argv files else runShuffle argv files
   | "esl-sfetch" => runSfetch argv files
   | "esl-translate" => runTranslate argv files
   | "esl-alistat" => runAlistat argv files
